@@ -163,6 +163,9 @@ def nibble_syms(I, st):
 def justify(I, ctx, s_err, oks):
     """why may this edge reject?  -> reason string or None"""
     nibs = nibble_syms(I, s_err)
+    crf = s_err.ghost.get(("inj", "checked-read-failed"))
+    if crf:
+        return "a checked read (slice::get) of the input came back empty at %s: the bytes are not there" % crf
     for sname in s_err.bounds:
         inf = I.syminfo.get(sname)
         if inf and inf[0] == "len" and inf[1] == "buf" and s_err.lo_hi(sname)[1] <= 3:
